@@ -406,3 +406,32 @@ def saturating_move(p: State, e: Event, want, bounds) -> bool:
             if v[1] == bounds[0] and ((op == "<" and b[1] == bounds[0]) or (op == "<=" and b[1] in (bounds[0], bounds[0] - 1))):
                 return True
     return False
+
+
+def lazy_iterator_reread(func: FuncInfo):
+    """syntactic companion of iterator_reuse: [(name, line)] for a local name that is bound (once) to a one-shot iterator -
+    zip / map / filter / iter / reversed / enumerate or a generator expression - and read at two or more places other than next(name):
+    whatever the order of evaluation (a retry in an except handler, a second pass), the second reader sees an exhausted iterator."""
+    import ast
+    binds: Dict[str, list] = {}
+    for n in ast.walk(func.node):
+        if isinstance(n, ast.Assign) and len(n.targets) == 1 and isinstance(n.targets[0], ast.Name):
+            v = n.value
+            lazy = isinstance(v, ast.GeneratorExp) or (isinstance(v, ast.Call) and isinstance(v.func, ast.Name) and v.func.id in ("zip", "map", "filter", "iter", "reversed", "enumerate"))
+            binds.setdefault(n.targets[0].id, []).append((lazy, n.lineno))
+        elif isinstance(n, (ast.AugAssign, ast.AnnAssign, ast.For, ast.comprehension, ast.NamedExpr, ast.With)):
+            for t in ast.walk(getattr(n, "target", None) or ast.Pass()):
+                if isinstance(t, ast.Name):
+                    binds.setdefault(t.id, []).append((False, getattr(n, "lineno", 0)))
+    names = {k for k, v in binds.items() if len(v) == 1 and v[0][0]}
+    if not names:
+        return []
+    in_next = set()
+    for n in ast.walk(func.node):
+        if isinstance(n, ast.Call) and isinstance(n.func, ast.Name) and n.func.id == "next" and n.args and isinstance(n.args[0], ast.Name):
+            in_next.add(id(n.args[0]))
+    reads: Dict[str, list] = {}
+    for n in ast.walk(func.node):
+        if isinstance(n, ast.Name) and isinstance(n.ctx, ast.Load) and n.id in names and id(n) not in in_next:
+            reads.setdefault(n.id, []).append(n.lineno)
+    return [(k, v[1]) for k, v in sorted(reads.items()) if len(v) >= 2]
